@@ -32,7 +32,7 @@ NS = 200000
 def gen_cases(tier, seed):
     rng = np.random.default_rng(seed + 101)
     cases = []
-    n = 6 if tier == "quick" else 50
+    n = 6 if tier == "quick" else 150
     shapes = [[1], [2], [3], [2, 3], [2, 1]]
     for kind in ("standard", "diag", "cond_diag", "bernoulli"):
         for i in range(n):
@@ -46,7 +46,7 @@ def gen_cases(tier, seed):
         cfg = {"dist": "mademog", "features": 1 + i % 2, "hidden": 8, "ctx": [0, 2][i % 2 if i % 3 else 0], "comps": 1 + i % 5,
                "blocks": 1 + i % 2, "residual": bool(i % 2), "random_mask": False, "narrow": (1 + i % 2) == 1 and i % 4 == 0}   # narrow components only in 1-D (grid resolution)
         cases.append({"kind": "dist", "cfg": cfg, "seed": env.subseed(seed, "c05m", i), "world": "f64", "cost": 4})
-    for i in range(3 if tier == "quick" else 12):
+    for i in range(3 if tier == "quick" else 30):
         cases.append({"kind": "box", "seed": env.subseed(seed, "c05b", i), "world": "f32", "cost": 1})
         cases.append({"kind": "mg1", "seed": env.subseed(seed, "c05g", i), "world": "f32", "cost": 1})
         cases.append({"kind": "kde", "seed": env.subseed(seed, "c05k", i), "D": 1 + i % 2, "N": [1, 3, 20][i % 3], "world": "f32", "cost": 2})
